@@ -137,6 +137,8 @@ pub struct BatchCfg {
     pub harness: HarnessFn,
     pub nontrivial: fn(&RunStats) -> bool,
     pub first_index: u64,
+    /// Hand-written plans executed before the generated ones (run indices 0..directed.len()).
+    pub directed: Vec<serde_json::Value>,
 }
 
 pub struct Found {
@@ -199,13 +201,14 @@ pub fn run_batch(cfg: &BatchCfg, known: &[KnownFinding]) -> BatchOut {
                 }
                 let index = cfg.first_index + i;
                 let seed = run_seed(cfg.base_seed, index);
-                let want_sample = i < 2;
+                let nd = cfg.directed.len() as u64;
+                let want_sample = i >= nd && i < nd + 2;
                 let spec = RunSpec {
                     prop: cfg.prop,
                     tier: cfg.tier,
                     seed,
                     index,
-                    plan: None,
+                    plan: cfg.directed.get(i as usize).cloned(),
                     choices: None,
                     tracing: want_sample,
                 };
